@@ -38,6 +38,9 @@ pub struct Cfg {
     pub poke_ms: Option<u64>,
     /// the chain nodes' addresses are configured as routers, so the routing table never admits them
     pub chain_unadmitted: bool,
+    /// (offset, n): another search (other info-hash) is requested at T_SEARCH - 2 s + offset; three extra
+    /// contacts answer it naming n far, silent addresses (a large end-game) and ignore the judged search
+    pub busy: Option<(u64, usize)>,
     pub rng_seed: u64,
 }
 
@@ -103,12 +106,39 @@ pub fn build(cfg: &Cfg, base_sends: Option<usize>) -> (Scenario, Vec<Box<dyn Pee
         }
         peers.push(Box::new(r));
     }
+    let mut busy_contacts: Vec<SocketAddr> = vec![];
+    if let Some((off, crowd)) = cfg.busy {
+        let ih2 = [0xa7u8; 20];
+        for b in 0..3usize {
+            // close to the busy search's hash, far from the judged one
+            let mut id = ih2;
+            id[2] ^= 0x10 << b;
+            id[19] = b as u8;
+            let addr = p_addr(50 + b);
+            let mut r = Responder::new(addr, id, universe.clone());
+            r.find_node_list = Some(NodeList::None);
+            r.silent_for = Some(ih());
+            let list: Vec<([u8; 20], SocketAddr)> = (0..crowd / 3)
+                .map(|k| {
+                    // farther from ih2 than every answering node: never asked before the end-game
+                    let mut cid = [0x18u8; 20];
+                    cid[1] = b as u8;
+                    cid[2] = k as u8;
+                    (cid, format!("10.0.{}.{}:7000", 60 + b, 1 + k).parse().unwrap())
+                })
+                .collect();
+            r.crowd = Some((ih2, list));
+            peers.push(Box::new(r));
+            busy_contacts.push(addr);
+        }
+        sc.actions.push((When::At(T_SEARCH - 2_000 + off), Action::Search { node: 0, info_hash: InfoHash::from(ih2), announce: false, tag: "busy".into() }));
+    }
     if cfg.via_router {
         // peer 0 is the router (never admitted); the others are learned from its answers
         sc.nodes.push(NodeSpec { addr: s_addr(), id: Some(InfoHash::from(s_id())), read_only: true, announce_port: None, contacts: vec![], routers: vec![p_addr(0).to_string()], start_ms: 0 });
     } else {
         let routers: Vec<String> = if cfg.chain_unadmitted { (0..cfg.chain).map(|k| p_addr(100 + k).to_string()).collect() } else { vec![] };
-        sc.nodes.push(NodeSpec { addr: s_addr(), id: Some(InfoHash::from(s_id())), read_only: true, announce_port: None, contacts: (0..n).map(p_addr).collect(), routers, start_ms: 0 });
+        sc.nodes.push(NodeSpec { addr: s_addr(), id: Some(InfoHash::from(s_id())), read_only: true, announce_port: None, contacts: (0..n).map(p_addr).chain(busy_contacts.iter().copied()).collect(), routers, start_ms: 0 });
     }
     if let Some(p) = cfg.poke_ms {
         sc.actions.push((When::At(T_SEARCH + p), Action::GetState { node: 0, tag: "poke".into() }));
@@ -251,7 +281,7 @@ fn beh_p(s: &str) -> Beh {
     }
 }
 fn cfg_json(c: &Cfg) -> Value {
-    json!({"peers": c.peers.iter().map(beh_s).collect::<Vec<_>>(), "chain": c.chain, "chain_end": beh_s(&c.chain_end), "announce": c.announce, "send_fail": c.send_fail, "send_answer": c.send_answer, "via_router": c.via_router, "poke_ms": c.poke_ms, "chain_unadmitted": c.chain_unadmitted, "rng_seed": c.rng_seed})
+    json!({"peers": c.peers.iter().map(beh_s).collect::<Vec<_>>(), "chain": c.chain, "chain_end": beh_s(&c.chain_end), "announce": c.announce, "send_fail": c.send_fail, "send_answer": c.send_answer, "via_router": c.via_router, "poke_ms": c.poke_ms, "chain_unadmitted": c.chain_unadmitted, "busy": c.busy.map(|(o, n)| json!([o, n])), "rng_seed": c.rng_seed})
 }
 fn cfg_parse(v: &Value) -> Cfg {
     Cfg {
@@ -264,6 +294,7 @@ fn cfg_parse(v: &Value) -> Cfg {
         via_router: v["via_router"].as_bool().unwrap_or(false),
         poke_ms: v["poke_ms"].as_u64(),
         chain_unadmitted: v["chain_unadmitted"].as_bool().unwrap_or(false),
+        busy: v["busy"].as_array().map(|a| (a[0].as_u64().unwrap_or(0), a[1].as_u64().unwrap_or(0) as usize)),
         rng_seed: v["rng_seed"].as_u64().unwrap_or(1),
     }
 }
@@ -326,7 +357,7 @@ pub fn configs(tier: Tier, seed: u64) -> Vec<Cfg> {
                 }
             }
             for announce in [false, true] {
-                out.push(Cfg { peers: peers.clone(), chain: 0, chain_end: Beh::Answers, announce, send_fail: None, send_answer: 0, via_router: false, poke_ms: None, chain_unadmitted: false, rng_seed: seed });
+                out.push(Cfg { peers: peers.clone(), chain: 0, chain_end: Beh::Answers, announce, send_fail: None, send_answer: 0, via_router: false, poke_ms: None, chain_unadmitted: false, busy: None, rng_seed: seed });
             }
         }
     }
@@ -336,7 +367,7 @@ pub fn configs(tier: Tier, seed: u64) -> Vec<Cfg> {
             let mut peers = vec![Beh::Answers; n];
             peers[n - 1] = last.clone();
             for announce in [false, true] {
-                out.push(Cfg { peers: peers.clone(), chain: 0, chain_end: Beh::Answers, announce, send_fail: None, send_answer: 0, via_router: false, poke_ms: None, chain_unadmitted: false, rng_seed: seed });
+                out.push(Cfg { peers: peers.clone(), chain: 0, chain_end: Beh::Answers, announce, send_fail: None, send_answer: 0, via_router: false, poke_ms: None, chain_unadmitted: false, busy: None, rng_seed: seed });
             }
         }
     }
@@ -344,24 +375,33 @@ pub fn configs(tier: Tier, seed: u64) -> Vec<Cfg> {
     for via_router in [false, true] {
         for poke in [10u64, 700, 1_499, 1_500, 1_501, 2_000, 2_990] {
             for peers in [vec![Beh::Silent; 3], vec![Beh::Answers, Beh::Silent, Beh::Answers], vec![Beh::Answers; 2]] {
-                out.push(Cfg { peers, chain: 0, chain_end: Beh::Answers, announce: true, send_fail: None, send_answer: 0, via_router, poke_ms: Some(poke), chain_unadmitted: false, rng_seed: seed });
+                out.push(Cfg { peers, chain: 0, chain_end: Beh::Answers, announce: true, send_fail: None, send_answer: 0, via_router, poke_ms: Some(poke), chain_unadmitted: false, busy: None, rng_seed: seed });
             }
         }
-        out.push(Cfg { peers: vec![Beh::Answers; 3], chain: 2, chain_end: Beh::Silent, announce: false, send_fail: None, send_answer: 0, via_router, poke_ms: None, chain_unadmitted: false, rng_seed: seed });
+        out.push(Cfg { peers: vec![Beh::Answers; 3], chain: 2, chain_end: Beh::Silent, announce: false, send_fail: None, send_answer: 0, via_router, poke_ms: None, chain_unadmitted: false, busy: None, rng_seed: seed });
     }
     // chains whose nodes the routing table refuses (router addresses): queried by the search all the same
     for chain in 1..=3usize {
         for n in [2usize, 3, 4] {
             let mut peers = vec![Beh::Answers; n];
             peers[n - 1] = Beh::Silent;
-            out.push(Cfg { peers, chain, chain_end: Beh::Answers, announce: true, send_fail: None, send_answer: 0, via_router: false, poke_ms: None, chain_unadmitted: true, rng_seed: seed });
+            out.push(Cfg { peers, chain, chain_end: Beh::Answers, announce: true, send_fail: None, send_answer: 0, via_router: false, poke_ms: None, chain_unadmitted: true, busy: None, rng_seed: seed });
         }
     }
     // chains of ever closer nodes
     for chain in 1..=6usize {
         for end in behs.iter() {
             for n in [1usize, 2] {
-                out.push(Cfg { peers: vec![Beh::Answers; n], chain, chain_end: end.clone(), announce: chain % 2 == 0, send_fail: None, send_answer: 0, via_router: false, poke_ms: None, chain_unadmitted: false, rng_seed: seed });
+                out.push(Cfg { peers: vec![Beh::Answers; n], chain, chain_end: end.clone(), announce: chain % 2 == 0, send_fail: None, send_answer: 0, via_router: false, poke_ms: None, chain_unadmitted: false, busy: None, rng_seed: seed });
+            }
+        }
+    }
+    // another search with a large end-game (n far silent nodes named by three extra contacts) runs next to
+    // the judged one
+    for peers in [vec![Beh::Silent; 2], vec![Beh::Answers, Beh::Silent], vec![Beh::Answers; 3], vec![Beh::Silent; 4]] {
+        for off in [500u64, 1_950, 3_440, 4_940] {
+            for crowd in tier.pick(vec![60usize], vec![30, 60, 150]) {
+                out.push(Cfg { peers: peers.clone(), chain: 0, chain_end: Beh::Answers, announce: false, send_fail: None, send_answer: 0, via_router: false, poke_ms: None, chain_unadmitted: false, busy: Some((off, crowd)), rng_seed: seed });
             }
         }
     }
@@ -394,11 +434,14 @@ pub fn run(tier: Tier) -> Report {
     // send failures: the k-th send after the search started fails, for every k
     let mut sf: Vec<Cfg> = vec![];
     for base in [
-        Cfg { peers: vec![Beh::Answers; 3], chain: 0, chain_end: Beh::Answers, announce: true, send_fail: None, send_answer: 0, via_router: false, poke_ms: None, chain_unadmitted: false, rng_seed: seed },
-        Cfg { peers: vec![Beh::Answers, Beh::Silent], chain: 3, chain_end: Beh::Answers, announce: true, send_fail: None, send_answer: 0, via_router: false, poke_ms: None, chain_unadmitted: false, rng_seed: seed },
-        Cfg { peers: vec![Beh::Silent; 2], chain: 0, chain_end: Beh::Answers, announce: false, send_fail: None, send_answer: 0, via_router: false, poke_ms: None, chain_unadmitted: false, rng_seed: seed },
+        Cfg { peers: vec![Beh::Answers; 3], chain: 0, chain_end: Beh::Answers, announce: true, send_fail: None, send_answer: 0, via_router: false, poke_ms: None, chain_unadmitted: false, busy: None, rng_seed: seed },
+        Cfg { peers: vec![Beh::Answers, Beh::Silent], chain: 3, chain_end: Beh::Answers, announce: true, send_fail: None, send_answer: 0, via_router: false, poke_ms: None, chain_unadmitted: false, busy: None, rng_seed: seed },
+        Cfg { peers: vec![Beh::Silent; 2], chain: 0, chain_end: Beh::Answers, announce: false, send_fail: None, send_answer: 0, via_router: false, poke_ms: None, chain_unadmitted: false, busy: None, rng_seed: seed },
+        // more than 4 answering peers: the search has end-game queries and 6 announces to send
+        Cfg { peers: vec![Beh::Answers; 6], chain: 0, chain_end: Beh::Answers, announce: true, send_fail: None, send_answer: 0, via_router: false, poke_ms: None, chain_unadmitted: false, busy: None, rng_seed: seed },
     ] {
-        for k in 0..tier.pick(10, 16) {
+        let kmax = if base.peers.len() > 4 { 20 } else { tier.pick(10, 16) };
+        for k in 0..kmax {
             for ans in [0u8, 1] {
                 let mut c = base.clone();
                 c.send_fail = Some(k);
@@ -423,10 +466,10 @@ pub fn run(tier: Tier) -> Report {
     // deviations
     let fs = fates();
     let picks: Vec<Cfg> = vec![
-        Cfg { peers: vec![Beh::Answers, Beh::Answers], chain: 0, chain_end: Beh::Answers, announce: false, send_fail: None, send_answer: 0, via_router: false, poke_ms: None, chain_unadmitted: false, rng_seed: seed },
-        Cfg { peers: vec![Beh::Answers, Beh::Silent, Beh::ErrorReply], chain: 0, chain_end: Beh::Answers, announce: true, send_fail: None, send_answer: 0, via_router: false, poke_ms: None, chain_unadmitted: false, rng_seed: seed },
-        Cfg { peers: vec![Beh::Answers], chain: 2, chain_end: Beh::Answers, announce: false, send_fail: None, send_answer: 0, via_router: false, poke_ms: None, chain_unadmitted: false, rng_seed: seed },
-        Cfg { peers: vec![Beh::Answers, Beh::Answers], chain: 4, chain_end: Beh::Silent, announce: true, send_fail: None, send_answer: 0, via_router: false, poke_ms: None, chain_unadmitted: false, rng_seed: seed },
+        Cfg { peers: vec![Beh::Answers, Beh::Answers], chain: 0, chain_end: Beh::Answers, announce: false, send_fail: None, send_answer: 0, via_router: false, poke_ms: None, chain_unadmitted: false, busy: None, rng_seed: seed },
+        Cfg { peers: vec![Beh::Answers, Beh::Silent, Beh::ErrorReply], chain: 0, chain_end: Beh::Answers, announce: true, send_fail: None, send_answer: 0, via_router: false, poke_ms: None, chain_unadmitted: false, busy: None, rng_seed: seed },
+        Cfg { peers: vec![Beh::Answers], chain: 2, chain_end: Beh::Answers, announce: false, send_fail: None, send_answer: 0, via_router: false, poke_ms: None, chain_unadmitted: false, busy: None, rng_seed: seed },
+        Cfg { peers: vec![Beh::Answers, Beh::Answers], chain: 4, chain_end: Beh::Silent, announce: true, send_fail: None, send_answer: 0, via_router: false, poke_ms: None, chain_unadmitted: false, busy: None, rng_seed: seed },
     ];
     let mut levels = vec![];
     for (i, cfg) in picks.iter().enumerate() {
